@@ -307,6 +307,28 @@ def planGen (ts : List Task) (pinned : Bool) (args : List Tok) (dflt : Option (L
     let ts' := if single then applySingle (prepare ts) sel else prepare ts
     .ok { sel := sel, tasks := ts', closure := closureOf ts' sel }
 
+/-! ## the command line before selection: `DoitMain.process_args` (M8/M4 boundary)
+
+Every word of the command line that does not start with `-` and contains `=` is a *command-line variable*
+(`doit.get_var`): it is taken out before the sub-command sees its arguments — wherever it stands, also where the user
+meant it as the detached value of a task option (`t --val a=b x` reaches the selection as `t --val x`), and a target whose
+name contains `=` cannot be named.  `default_tasks` come from the configuration and are not filtered. -/
+
+def isVarWord (a : Tok) : Bool :=
+  match a with
+  | [] => false
+  | c :: _ => c != '-' && a.contains '='
+
+def stripVars (args : List Tok) : List Tok := args.filter (fun a => !isVarWord a)
+
+/-- `process_args` evaluates `arg[0]`: an empty word raises IndexError outside the `try` of `DoitMain.run`
+    (open finding `empty-word-crash`) -/
+def processArgsCrashes (args : List Tok) : Bool := args.contains []
+
+/-- `doit run [--single] ARGS` from the command line -/
+def planCli (ts : List Task) (args : List Tok) (dflt : Option (List Tok)) (single : Bool) : Except Err Plan :=
+  planGen ts false (stripVars args) dflt single
+
 /-- index of the first occurrence -/
 def idxOf (l : List Tok) (a : Tok) : Nat := l.findIdx (· == a)
 
